@@ -850,4 +850,114 @@ theorem derTBIT_roundtrip' (tag : Nat) (val : List UInt8) (len : Nat) (hvl : val
   rw [rdSlice_ok (by simp; omega), hsd, hlenv]
 
 
+/-! ### SEQ anchors -/
+
+set_option maxRecDepth 4000 in
+/-- SEQ encoding: Start, then the content, then Stop = derEnc of the content (the length octet written
+    by Start is replaced by the final length code and the content is moved by the returned shift) -/
+theorem derTSEQEnc_spec (pre content : List UInt8) (tag : Nat) (a : Anchor) (e0 : List UInt8)
+    (hs : derTSEQEncStart pre.length tag = .ok (a, e0)) (htag : tag < U32) (hW : pre.length + content.length + 16 < W) :
+    ∃ E, derEnc tag content = .ok E ∧
+      derTSEQEncStop (pre ++ e0 ++ content) a = .ok (E.length - e0.length - content.length, pre ++ E) := by
+  unfold derTSEQEncStart at hs
+  by_cases hv : (!derTIsValid tag) = true ∨ (!derTIsConstructive tag) = true
+  · rw [if_pos hv] at hs; cases hs
+  · rw [if_neg hv] at hs
+    have hvalid : derTIsValid tag = true := by
+      cases h : derTIsValid tag
+      · exact absurd (Or.inl (by simp [h])) hv
+      · rfl
+    have hT := derTEnc_ok tag hvalid
+    unfold derEnc at hs ⊢
+    rw [hT] at hs ⊢
+    simp only [] at hs ⊢
+    injection hs with hs
+    injection hs with ha he0
+    subst ha
+    refine ⟨_, rfl, ?_⟩
+    have hL0 : derLEnc ([] : List UInt8).length = [0] := by decide
+    rw [hL0, List.append_nil] at he0
+    subst he0
+    generalize hTl : beBytes (tCount tag) tag = T
+    have hTlen : T.length = tCount tag := by rw [← hTl, beBytes_length]
+    have htl : tEncLen tag = T.length := by unfold tEncLen; rw [hT, hTl]
+    have hLc := derLEnc_le9 content.length (by omega)
+    unfold derTSEQEncStop
+    simp only [List.length_append, List.length_cons, List.length_nil]
+    rw [htl]
+    have hl0 : (derLEnc 0).length = 1 := by decide
+    rw [hl0]
+    have h4 : T.length ≤ 4 := by rw [hTlen]; exact (tCount_le4 tag htag).2
+    rw [if_neg (by rw [Nat.mod_eq_of_lt (by omega)]; omega)]
+    have hlen : (pre.length + (T.length + (0 + 1)) + content.length + 3 * W - pre.length - T.length - 1) % W = content.length := by
+      have : pre.length + (T.length + (0 + 1)) + content.length + 3 * W - pre.length - T.length - 1 = content.length + 3 * W := by omega
+      rw [this]
+      omegaW
+    simp only [hlen]
+    rw [if_pos (by omega)]
+    have hshift : ((derLEnc content.length).length + W - 1) % W =
+        (T ++ derLEnc content.length ++ content).length - (T ++ [0]).length - content.length := by
+      have : (derLEnc content.length).length + W - 1 = ((derLEnc content.length).length - 1) + W := by omega
+      rw [this, Nat.add_mod_right, Nat.mod_eq_of_lt (by omega)]
+      simp; omega
+    have e1 : pre.length + (T.length + (0 + 1)) + content.length - content.length - 1 = (pre ++ T).length := by simp
+    have e2 : pre.length + (T.length + (0 + 1)) + content.length - content.length = (pre ++ T ++ [0]).length := by simp
+    have a1 : pre ++ (T ++ [0]) ++ content = (pre ++ T) ++ ([0] ++ content) := by simp
+    have a2 : pre ++ (T ++ [0]) ++ content = (pre ++ T ++ [0]) ++ content := by simp
+    have hbuf : List.take (pre.length + (T.length + (0 + 1)) + content.length - content.length - 1) (pre ++ (T ++ [0]) ++ content) ++
+        derLEnc content.length ++
+        List.drop (pre.length + (T.length + (0 + 1)) + content.length - content.length) (pre ++ (T ++ [0]) ++ content) =
+        pre ++ (T ++ derLEnc content.length ++ content) := by
+      rw [e1, e2]
+      conv => lhs; arg 1; arg 1; rw [a1, List.take_left' rfl]
+      conv => lhs; arg 2; rw [a2, List.drop_left' rfl]
+      simp
+    rw [hshift, hbuf]
+    simp
+    omega
+
+
+/-- SEQ decoding: Stop succeeds only at the position Start + |TL| + len (also for lengths near SIZE_MAX:
+    the pointer sum cannot wrap back into the buffer) -/
+theorem derTSEQDec_spec (der : List UInt8) (tag : Nat) (a : Anchor) (k pos : Nat)
+    (hs : derTSEQDecStart der tag = .ok (a, k)) (hstop : derTSEQDecStop pos a = .ok ()) :
+    pos = k + a.len ∧ a.tag = tag ∧ k ≤ der.length := by
+  unfold derTSEQDecStart at hs
+  split at hs
+  · cases hs
+  · rcases derTDec_cases der with e | ⟨t, tc, e, hk1, hk4, hkl⟩
+    · rw [e] at hs; cases hs
+    · rw [e] at hs; simp only [] at hs
+      by_cases ht : t ≠ tag
+      · rw [if_pos ht] at hs; cases hs
+      · rw [if_neg ht] at hs
+        have ht' : t = tag := by omega
+        subst ht'
+        rcases derLDec_cases (der.drop tc) with e2 | ⟨l, lc, e2, h1, h9, hl, hsz⟩
+        · rw [e2] at hs; cases hs
+        · rw [e2] at hs; simp only [] at hs
+          rw [List.length_drop] at hl
+          have hm : (tc + lc) % W = tc + lc := Nat.mod_eq_of_lt (by omegaW)
+          rw [hm] at hs
+          cases hs
+          have hT := derTDec_canonical' der t tc e
+          have hL := derLDec_canonical' _ l lc e2
+          have htl : tEncLen t = tc := by
+            unfold tEncLen; rw [hT]; simp; omega
+          have hll : (derLEnc l).length = lc := by
+            rw [hL]; simp [List.length_take]; omega
+          unfold derTSEQDecStop at hstop
+          simp only [] at hstop
+          rw [htl, hll, hm] at hstop
+          by_cases hgt : tc + lc > pos
+          · rw [if_pos hgt] at hstop; cases hstop
+          · rw [if_neg hgt] at hstop
+            by_cases heq : pos = (tc + lc + l) % W
+            · refine ⟨?_, rfl, by omega⟩
+              simp only []
+              have : l < W := by omegaW
+              omegaW
+            · rw [if_neg heq] at hstop; cases hstop
+
+
 end Bee2V.C08
